@@ -164,6 +164,16 @@ def check_case(case):
                 except Exception:
                     pass
         for name, bad in corruptions(major, want):
+            if len(bad) < 2000:
+                # the reader users call: a file with such a header yields no parsed document either
+                try:
+                    from ofxtools.Parser import OFXTree
+
+                    t = OFXTree()
+                    t.parse(io.BytesIO((bad + BODY).encode("ascii")))
+                    out.append((f"corrupt-header-accepted-by-OFXTree/{name}", f"{bad!r} -> header {getattr(t, 'header', None)!r}"))
+                except Exception:
+                    pass
             try:
                 r = hdr.parse_header(io.BytesIO((bad + BODY).encode("ascii")))
                 out.append((f"corrupt-header-accepted/{name}", f"{bad!r} -> {header_fields(r[0], fields)}"))
